@@ -116,17 +116,20 @@ func (c06) Run(t *tape.Tape, st *Stats) *Violation {
 		want []byte
 	}
 	var history []held
+	earlierLoads := false
 	if t.Chance(1, 3) {
+		earlierLoads = true
 		n := 1 + t.Intn(2)
 		for i := 0; i < n; i++ {
 			var pf *refmodel.File
+			dmg := t.Bool() // earlier loads may be of files with damaged profiles: failure paths leave state behind too
 			switch t.Intn(3) {
 			case 0:
-				pf = refmodel.BuildPNG(refmodel.DrawPNG(t, 1, []int{1, 300, 3000, 5000}, false))
+				pf = refmodel.BuildPNG(refmodel.DrawPNG(t, 1, []int{1, 300, 3000, 5000}, dmg))
 			case 1:
-				pf = refmodel.BuildJPEG(refmodel.DrawJPEG(t, 1, []int{1, 300, 3000, 5000}, false, nil))
+				pf = refmodel.BuildJPEG(refmodel.DrawJPEG(t, 1, []int{1, 300, 3000, 5000}, dmg, nil))
 			default:
-				pf = refmodel.BuildWebP(refmodel.DrawWebP(t, 2, 1, []int{1, 300, 3000, 5000}, false))
+				pf = refmodel.BuildWebP(refmodel.DrawWebP(t, 2, 1, []int{1, 300, 3000, 5000}, dmg))
 			}
 			l := SpecificLoader(pf.Truth.Format)
 			if t.Bool() {
@@ -178,7 +181,7 @@ func (c06) Run(t *tape.Tape, st *Stats) *Violation {
 		st.Sample(render())
 	}
 	fail := func(class, detail string) *Violation {
-		return &Violation{Class: class, Sig: loader.Name + ":" + tr.Format + ":" + class + ":" + tr.Damage, Detail: detail + " [" + trunc(tr.Desc, 300) + " via " + loader.Name + " under " + cfg.String() + "]" + faultNote(cfg, firedDuringLoad), Render: render()}
+		return &Violation{Class: class, Sig: loader.Name + ":" + tr.Format + ":" + class + ":" + tr.Damage, Detail: detail + " [" + trunc(tr.Desc, 300) + " via " + loader.Name + " under " + cfg.String() + "]" + faultNote(cfg, firedDuringLoad) + earlierLoadsNote(earlierLoads), Render: render(), OwnHistory: earlierLoads}
 	}
 	if res.Panic != nil {
 		return fail("panic", fmt.Sprintf("Load panicked: %v", res.Panic))
@@ -257,4 +260,11 @@ func firstDiff(a, b []byte) int {
 		}
 	}
 	return n
+}
+
+func earlierLoadsNote(on bool) string {
+	if on {
+		return " [after earlier loads in the same run]"
+	}
+	return ""
 }
